@@ -334,7 +334,7 @@ int thread_count() { return (int) g_threads.size(); }
 std::vector<std::string> race_reports() {
     std::vector<std::string> v;
     if (!rd_report_count) return v;
-    char buf[512];
+    char buf[2048];
     for (int i = 0; i < rd_report_count(); ++i)
         if (rd_report(i, buf, sizeof buf) > 0) v.push_back(buf);
     return v;
